@@ -5,7 +5,12 @@ CXX = ccache g++
 SAN_DRV ?= -fsanitize=address -fsanitize=signed-integer-overflow,shift,bounds,integer-divide-by-zero,float-cast-overflow -fno-sanitize-recover=all
 SAN_IO ?= -fsanitize=address,undefined -fno-sanitize-recover=undefined
 DEFS = -DNDEBUG -DAMPL_MP_VERIF -DMP_DATE=20240320 -DMP_SYSINFO="\"Linux x86_64\"" -DMP_USE_ATOMIC -DMP_USE_HASH -DMP_USE_UNIQUE_PTR
-INC = -I$(REPO)/include -I$(REPO)/src -I$(REPO)/nl-writer2/include -Isim/core -Isim
+# src/expr-info.cc and nl-writer2/include/mp/nl-opcodes.h are generated (git-ignored) files of ampl/mp's own build
+# (gen-expr-info).  A built tree has them; a bare checkout (git worktree) does not: then they are generated into $(B)/gen.
+HAVE_GEN := $(and $(wildcard $(REPO)/src/expr-info.cc),$(wildcard $(REPO)/nl-writer2/include/mp/nl-opcodes.h))
+EXPR_INFO_SRC := $(if $(HAVE_GEN),$(REPO)/src/expr-info.cc,$(B)/gen/src/expr-info.cc)
+GEN_DEP := $(if $(HAVE_GEN),,$(B)/gen/src/expr-info.cc)
+INC = -I$(REPO)/include -I$(REPO)/src -I$(REPO)/nl-writer2/include -I$(B)/gen/include -Isim/core -Isim
 COMMON = -std=c++17 -O1 -g1 -fno-omit-frame-pointer -w $(DEFS) $(INC)
 
 MP_SRCS = format.cc posix.cc expr.cc nl-reader.cc option.cc os.cc problem.cc rstparser.cc \
@@ -30,6 +35,18 @@ $(B)/drvsim: $(DRV_OBJS)
 	@g++ $(SAN_DRV) -rdynamic -o $@ $^ -ldl
 $(B)/iosim: $(IO_OBJS)
 	@g++ $(SAN_IO) -rdynamic -o $@ $^ -ldl
+
+$(B)/gen/src/expr-info.cc:
+	@mkdir -p $(B)/gen/src $(B)/gen/include/mp
+	@g++ -std=c++17 -w $(DEFS) -I$(REPO)/include -I$(REPO)/src $(REPO)/src/gen-expr-info.cc $(REPO)/src/format.cc $(REPO)/src/posix.cc -o $(B)/gen/gen-expr-info
+	@$(B)/gen/gen-expr-info $(B)/gen/src/expr-info.cc $(B)/gen/include/mp/nl-opcodes.h
+$(DRV_OBJS) $(IO_OBJS): | $(GEN_DEP)
+$(B)/drv/mp/expr-info.cc.o: $(EXPR_INFO_SRC) FORCE
+	@mkdir -p $(dir $@)
+	@$(CXX) $(COMMON) $(SAN_DRV) -MMD -MP -c $< -o $@
+$(B)/io/mp/expr-info.cc.o: $(EXPR_INFO_SRC) FORCE
+	@mkdir -p $(dir $@)
+	@$(CXX) $(COMMON) $(SAN_IO) -MMD -MP -c $< -o $@
 
 # ---- drv flavour
 $(B)/drv/mp/%.o: $(REPO)/src/% FORCE
